@@ -436,6 +436,96 @@ pub fn check_thread(case: &ThreadCase) -> CaseResult {
 #[allow(dead_code)]
 fn _s(_: SRes) {}
 
+// ---------------------------------------------------------------------------------------------
+// many outstanding requests, from several threads, while the writer is busy inside the stream
+
+#[derive(Clone, Debug, Serialize, Deserialize)]
+pub struct ManyCase {
+    pub capacity: u8,
+    pub boxed: bool,
+    pub before: u8,
+    pub threads: u8,
+    pub per_thread: u8,
+    pub jitter: Vec<u8>,
+}
+
+pub fn check_many(case: &ManyCase) -> CaseResult {
+    let cap = case.capacity.max(1) as usize;
+    let log = Arc::new(EventLog::default());
+    let gate = Gate::new(false);
+    let stream = BqStream::new(vec![], gate.clone(), log.clone());
+    let (q, handle) = super::c01::build_queue(cap.max(case.before as usize + 1), case.boxed, Duration::from_millis(1), stream);
+    let before = case.before.max(1) as usize;
+    for s in 0..before {
+        let id = Id { p: 0, s: s as u32 };
+        log.push(Ev::AppendStart(id));
+        q.append(TestE(id));
+        log.push(Ev::AppendEnd(id));
+    }
+    // the writer is now held inside stream.next() for the first entry: requests pile up unread
+    if !gate.wait_blocked(Duration::from_secs(5)) {
+        gate.open();
+        let _ = no_panic("queue-shutdown", || handle.shut_down());
+        return Ok(vec!["inconclusive-timeout"]);
+    }
+    let nt = (case.threads % 4 + 1) as usize;
+    let per = case.per_thread as usize;
+    let counter = std::sync::atomic::AtomicU32::new(0);
+    let futures: Vec<(u32, std::pin::Pin<Box<metrique_writer_core::sink::FlushWait>>)> = std::thread::scope(|s| {
+        let hs: Vec<_> = (0..nt)
+            .map(|t| {
+                let q = q.clone();
+                let log = log.clone();
+                let counter = &counter;
+                let jit = case.jitter.clone();
+                s.spawn(move || {
+                    let mut mine = vec![];
+                    for k in 0..per {
+                        if !jit.is_empty() {
+                            jitter(jit[(t + k) % jit.len()]);
+                        }
+                        let i = counter.fetch_add(1, std::sync::atomic::Ordering::SeqCst);
+                        log.push(Ev::FlushReq(i));
+                        let mut f = Box::pin(q.flush_async());
+                        // nothing has been written: a request that is already complete broke the barrier
+                        if poll_once(f.as_mut()).is_ready() {
+                            log.push(Ev::FlushDone(i));
+                        } else {
+                            mine.push((i, f));
+                        }
+                    }
+                    mine
+                })
+            })
+            .collect();
+        hs.into_iter().flat_map(|h| h.join().unwrap_or_default()).collect()
+    });
+    let total = counter.load(std::sync::atomic::Ordering::SeqCst) as usize;
+    gate.open();
+    let mut classes: Classes = vec![];
+    for (i, mut f) in futures {
+        if block_on_timeout(f.as_mut(), Duration::from_secs(10)).is_none() {
+            let _ = no_panic("queue-shutdown", || handle.shut_down());
+            return Ok(vec!["inconclusive-timeout"]);
+        }
+        log.push(Ev::FlushDone(i));
+    }
+    check_flush_barrier(&log.snapshot(), usize::MAX)?;
+    drop(q);
+    no_panic("queue-shutdown", || handle.shut_down())?;
+    if total > 32 {
+        classes.push("more-than-32-requests-outstanding");
+        classes.push("nt");
+    }
+    if total > 128 {
+        classes.push("more-than-128-requests-outstanding");
+    }
+    if nt > 1 {
+        classes.push("requests-from-several-threads");
+    }
+    Ok(classes)
+}
+
 pub fn run(ctx: &mut Ctx) {
     ctx.assume("level 1 drives the real WakerTracker through hook H2a under the preconditions its source documents (Drained only after the queue was empty since the last handle; HitDeadline only with a positive multiple of 32 entries)");
     ctx.assume("liveness is decided by counting entries written / handle calls, never by wall-clock time; the bound for a never-empty queue is capacity + 128 pops at thread level and 2*capacity + 64 at state-machine level");
@@ -497,5 +587,28 @@ pub fn run(ctx: &mut Ctx) {
                 })
         },
         check_thread,
+    );
+    ctx.explore(
+        SubCfg::new(
+            "c04-many-requests",
+            "real queue whose writer is held inside stream.next() for the first of 1-30 appended entries (fuel gate shut) while 1-4 threads issue 0-60 flush requests each (0-240 outstanding, none read by the writer yet); every future is polled once right away, then the gate opens and all are awaited. Oracle: the barrier over the event log for every request - none completes before the entries appended before it were written and the stream flushed after them. Non-trivial = more than 32 requests outstanding at once",
+            if q { 1_000 } else { 20_000 },
+        )
+        .threads(ctx.tier.pick(4, 8))
+        .shrink_iters(60)
+        .mandatory(&["more-than-32-requests-outstanding", "more-than-128-requests-outstanding", "requests-from-several-threads"]),
+        || {
+            (1u8..40, any::<bool>(), 1u8..30, any::<u8>(), prop_oneof![0u8..12, 8u8..60], prop::collection::vec(any::<u8>(), 0..4)).prop_map(
+                |(capacity, boxed, before, threads, per_thread, jitter)| ManyCase {
+                    capacity,
+                    boxed,
+                    before,
+                    threads,
+                    per_thread,
+                    jitter,
+                },
+            )
+        },
+        check_many,
     );
 }
